@@ -56,6 +56,9 @@ def source(ident, rules, positions):
             out.append(f'#[typeshare]\n#[serde(tag = "t", content = "c")]\npub enum V{i} {{ U, #[serde(rename_all = "{r}")] Sv {{ {rust_ident(ident)}: u32 }} }}\n')
             out.append(f'#[typeshare]\n#[serde(tag = "t", content = "c", rename_all_fields = "{r}")]\npub enum W{i} {{ U, Sv {{ {rust_ident(ident)}: u32 }} }}\n')
             out.append(f'#[typeshare]\n#[serde(tag = "t", content = "c", rename_all = "{other}", rename_all_fields = "{other}")]\npub enum X{i} {{ U, #[serde(rename_all = "{r}")] Sv {{ {rust_ident(ident)}: u32 }} }}\n')
+            # the rule as the enum's rename_all_fields, the variant declared AFTER a variant that carries another rule of its own
+            # (serde resolves each variant on its own: a variant's rule does not reach the variants declared after it)
+            out.append(f'#[typeshare]\n#[serde(tag = "t", content = "c", rename_all_fields = "{r}")]\npub enum Z{i} {{ U, #[serde(rename_all = "{other}")] Dec {{ dec_word: u32 }}, Sv {{ {rust_ident(ident)}: u32 }} }}\n')
             # MC_C16!AttrSpellings: the rule in a SECOND #[serde(..)] attribute of the container (serde merges all of them)
             out.append(f'#[typeshare]\n#[serde(deny_unknown_fields)]\n/// doc\n#[serde(rename_all = "{r}")]\npub struct T{i} {{ pub {rust_ident(ident)}: u32 }}\n')
         if "variant" in positions:
@@ -76,10 +79,10 @@ def observe(res, rules):
     for e in pd.get("enums", []):
         i = int(e["id"]["original"][1:])
         k = e["id"]["original"][0]
-        if k in "VWX":
-            sv = [v for v in e["variants"] if v.get("fields")]
+        if k in "VWXZ":
+            sv = [v for v in e["variants"] if v.get("fields") and v.get("id", {}).get("original", "Sv") == "Sv"]
             if sv:
-                obs[("field+" + {"V": "variant-rule", "W": "enum-fields-rule", "X": "variant-rule-over-enum-rules"}[k], rules[i])] = sv[0]["fields"][0]["id"]["renamed"]
+                obs[("field+" + {"V": "variant-rule", "W": "enum-fields-rule", "X": "variant-rule-over-enum-rules", "Z": "enum-fields-rule-after-ruled-variant"}[k], rules[i])] = sv[0]["fields"][0]["id"]["renamed"]
             continue
         obs[("variant" + {"Q": "+raw", "Y": "+rule-in-second-attribute"}.get(k, ""), rules[i])] = e["variants"][0]["id"]["renamed"]
     return obs
@@ -175,7 +178,7 @@ def run_idents(chk, cases, predict=None):
                     judge_one(chk, ident, pos if plain_bad else pos + "+rule-in-second-attribute", r, exp[pos][r], obs[(pos + "+rule-in-second-attribute", r)], False)
                     events.append({"pos": pos, "rule": r, "ident": toks(ident), "panic": False, "obs": toks(obs[(pos + "+rule-in-second-attribute", r)]), "ctx": "second-attribute"})
                 if pos == "field":
-                    for ctx in ("variant-rule", "enum-fields-rule", "variant-rule-over-enum-rules"):
+                    for ctx in ("variant-rule", "enum-fields-rule", "variant-rule-over-enum-rules", "enum-fields-rule-after-ruled-variant"):
                         if ("field+" + ctx, r) in obs:
                             plain_bad = panicked or obs.get((pos, r)) != exp[pos][r]
                             judge_one(chk, ident, pos if plain_bad else pos + "+" + ctx, r, exp[pos][r], obs[("field+" + ctx, r)], False)
